@@ -63,7 +63,7 @@ def scenarios(tier):
                     continue
                 for drain in ('each', 'end'):
                     if tier == 'quick':
-                        E = 1 if (length <= 2 and n == 2) else 0
+                        E = 2 if (length <= 1 and n == 2) else (1 if (length <= 2 and n == 2) else 0)
                     else:
                         E = 2 if (length <= 1 and n == 2) else (1 if (length <= 3 and n == 2) else 0)
                     out.append(Scenario('io', n=n, evs=[list(e) for e in evs], drain=drain, E=E, nodet=(E == 0)))
